@@ -41,12 +41,16 @@ import numbers as _numbers
 # plain classes, abstract base classes that concrete classes are only *registered* with (tuple is a Sequence,
 # int and float are Numbers: subclass relations that do not show in __mro__), and "any of" aggregations
 TYPES = {'object': object, 'A': A, 'B': B, 'C': C, 'D': D, 'int': int, 'str': str,
-         'tuple': tuple, 'Seq': _abc.Sequence, 'Num': _numbers.Number, 'float': float}
+         'tuple': tuple, 'Seq': _abc.Sequence, 'Num': _numbers.Number, 'float': float,
+         # yaqltypes.Iterable(): any iterable that is not a string or a mapping; converting a value for such a
+         # parameter applies the engine's iterator limit (a sized collection over the limit is refused on the spot)
+         'Iter': _abc.Iterable}
+LONG = tuple(range(9))        # longer than the iterator limit (8) of the limited engine used by the limit families
 # values and the lattice types they are instances of
 VALUES = {
     'a': (A, lambda: A()), 'b': (B, lambda: B()), 'c': (C, lambda: C()), 'd': (D, lambda: D()),
     'i': (int, lambda: 7), 's': (str, lambda: 'txt'), 'n': (type(None), lambda: None),
-    't': (tuple, lambda: (1, 2)), 'f': (float, lambda: 2.5),
+    't': (tuple, lambda: (1, 2)), 'f': (float, lambda: 2.5), 'T': (tuple, lambda: LONG),
 }
 
 
@@ -62,6 +66,8 @@ def accepts(tname, value):
     """does a non-null python value pass the type named tname?"""
     if is_anyof(tname):
         return any(isinstance(value, TYPES[t]) for t in anyof_parts(tname))
+    if tname == 'Iter' and isinstance(value, (str, dict)):
+        return False
     return isinstance(value, TYPES[tname])
 
 
@@ -70,6 +76,8 @@ def instance_of(vkey, tname):
         return False
     if is_anyof(tname):
         return any(issubclass(VALUES[vkey][0], TYPES[t]) for t in anyof_parts(tname))
+    if tname == 'Iter' and issubclass(VALUES[vkey][0], str):
+        return False
     return issubclass(VALUES[vkey][0], TYPES[tname])
 
 
@@ -85,6 +93,8 @@ def strictly_more_specific(t1, t2):
 def smart_type(tname, nullable):
     if is_anyof(tname):
         return yt.AnyOf(*[TYPES[t] for t in anyof_parts(tname)], nullable=nullable)
+    if tname == 'Iter':
+        return yt.Iterable(nullable=nullable)
     return yt.PythonType(TYPES[tname], nullable)
 
 
@@ -143,8 +153,9 @@ class OverloadSpec:
                 sig.append(p.name + ('=%r' % (p.default,) if p.has_default else ''))
         names = [p.name for p in self.params]
         body = 'def payload(%s):\n    return (%r, {%s})\n' % (
-            ', '.join(sig), self.tag, ', '.join('%r: %s' % (n, n) for n in names))
-        ns = {}
+            ', '.join(sig), self.tag, ', '.join('%r: _s(%s)' % (n, n) for n in names))
+        # an over-long tuple is reported by a marker (the result itself has to pass the iterator limit)
+        ns = {'_s': lambda v: 'LONG' if isinstance(v, tuple) and len(v) > 8 else v}
         exec(body, ns)
         fn = ns['payload']
         fn.__name__ = 'payload_' + self.tag
